@@ -248,12 +248,20 @@ func byteLit(bs []byte) string {
 	return strings.Join(parts, ", ")
 }
 
+// unconstrained: the (sliced) query does not mention the term, so the counter-model does not depend on it: any value
+// will do and the replay uses the zero value. Literal terms never end up here.
+func (lg *litGen) unconstrained(term string) {
+	if len(lg.note) < 20 {
+		lg.note = append(lg.note, "not constrained by the query, zero value used: "+term)
+	}
+}
+
 func (lg *litGen) lit(t types.Type, v *val, depth int) string {
 	switch v.k {
 	case kInt:
 		n, ok := lg.mv.uint(v.t[0])
 		if !ok {
-			lg.ok = false
+			lg.unconstrained(v.t[0])
 		}
 		if v.signed || func() bool { _, s, _ := intW(t); return s }() {
 			w, _, _ := intW(t)
@@ -274,7 +282,7 @@ func (lg *litGen) lit(t types.Type, v *val, depth int) string {
 	case kFloat:
 		n, ok := lg.mv.uint(v.t[0])
 		if !ok {
-			lg.ok = false
+			lg.unconstrained(v.t[0])
 		}
 		if v.w == 32 {
 			return fmt.Sprintf("%s(math.Float32frombits(%d))", lg.typeStr(t), n)
@@ -286,7 +294,7 @@ func (lg *litGen) lit(t types.Type, v *val, depth int) string {
 		bs, ok := lg.mv.wide(v.t[0])
 		n := v.w / 8
 		if !ok {
-			lg.ok = false
+			lg.unconstrained(v.t[0])
 			bs = make([]byte, n)
 		}
 		for len(bs) < n {
@@ -296,7 +304,7 @@ func (lg *litGen) lit(t types.Type, v *val, depth int) string {
 	case kPtr:
 		ref, ok := lg.mv.int(v.t[0])
 		if !ok {
-			lg.ok = false
+			lg.unconstrained(v.t[0])
 		}
 		pt, isPtr := t.Underlying().(*types.Pointer)
 		if ref == 0 || !isPtr || depth >= 3 {
@@ -310,7 +318,7 @@ func (lg *litGen) lit(t types.Type, v *val, depth int) string {
 		ref, _ := lg.mv.int(v.t[0])
 		ln, ok := lg.mv.uint(v.t[2])
 		if !ok {
-			lg.ok = false
+			lg.unconstrained(v.t[2])
 		}
 		if isString(t) {
 			bs := lg.bytesAt(v, ln)
@@ -525,7 +533,7 @@ func writeReplay(w *world, g *gen, r result, prop, outDir string, run bool) repl
 	var argNames []string
 	for i, p := range ri.params {
 		vn := fmt.Sprintf("a%d", i)
-		decl = append(decl, fmt.Sprintf("\t%s := %s // %s", vn, lg.lit(p.ty, p.v, 0), p.name))
+		decl = append(decl, fmt.Sprintf("\tvar %s %s = %s // %s", vn, lg.typeStr(p.ty), lg.lit(p.ty, p.v, 0), p.name))
 		argNames = append(argNames, vn)
 	}
 	var callExpr string
